@@ -23,7 +23,13 @@
      committed_was_marked, store_backwards_only_after_reset, mark_never_lowers,
      reset_never_raises, next_offset_is_pending_or_initial,
      mark_during_flight_is_recommitted, pending_mark_is_sent_by_next_commit,
-     closed_and_accepted_implies_store_equals_last_mark                                  *)
+     closed_and_accepted_implies_store_equals_last_mark
+   Shutdown family (mode "sd", for C12: closing at any moment completes, nothing panics):
+     sd_ret    who, p, hang, panic          an awaited Close / AsyncClose / Commit call returned, or the
+                                            quiescence-aware watchdog gave up on it (hang)
+     panic     msg, stack                   sarama's PanicHandler caught a panic
+     errors_closed  p, closed               the Errors() channel of the POM was drained until closed
+     clauses close_hang, close_panic, errors_closed_after_close                          *)
 EXTENDS Integers, Sequences, FiniteSets, TLC, Json
 
 Trace == ndJsonDeserialize("trace.ndjson")
@@ -48,7 +54,8 @@ Expected(x) == IF x.off >= 0 THEN x ELSE Pos(cfg.initial, "")
 NoCfg == [mode |-> "none", auto |-> FALSE, retry |-> 0, initial |-> -1]
 Stat0 == [traces |-> 0, marks |-> 0, effective |-> 0, flight_marks |-> 0, requests |-> 0,
           blocks |-> 0, flight_recommitted |-> 0, backwards_after_reset |-> 0, next_reads |-> 0,
-          closes_premise |-> 0, closes |-> 0, faulty_requests |-> 0]
+          closes_premise |-> 0, closes |-> 0, faulty_requests |-> 0,
+          sd_returns |-> 0, sd_hangs |-> 0, sd_panics |-> 0, sd_errors_channels_closed |-> 0]
 Bump(f) == [st EXCEPT ![f] = @ + 1]
 BumpBy(s, f, n) == [s EXCEPT ![f] = @ + n]
 
@@ -126,7 +133,7 @@ UnsentClauses(ps) ==
 TCommitRet ==
   /\ E.ev = "commit_ret"
   \* Commit() returned without having sent anything although a position is pending
-  /\ viol' = viol \cup (IF cfg.mode # "tick" /\ reqs = 0 THEN UnsentClauses(Unsent({})) ELSE {})
+  /\ viol' = viol \cup (IF cfg.mode \in {"seq", "win"} /\ reqs = 0 THEN UnsentClauses(Unsent({})) ELSE {})
   /\ inFlight' = FALSE
   /\ UNCHANGED <<cfg, pend, asked, touched, store, winLow, accLow, flightMark, reqs, closing, joined, finalsOk, st>>
 
@@ -144,7 +151,7 @@ TCreq ==
      /\ viol' = viol
           \cup When(\E b \in blocks : b[1] \notin Parts \/ Pos(b[2], b[3]) \notin asked[b[1]], "committed_was_marked")
           \cup When(\E p \in back : Min(accLow[p], winLow[p]) > A(p).off, "store_backwards_only_after_reset")
-          \cup (IF cfg.mode # "tick" THEN UnsentClauses(Unsent(blocks)) ELSE {})
+          \cup (IF cfg.mode \in {"seq", "win"} THEN UnsentClauses(Unsent(blocks)) ELSE {})
      /\ store' = [p \in Parts |-> IF p \in ap THEN A(p) ELSE store[p]]
      /\ accLow' = [p \in Parts |-> IF p \in ap THEN winLow[p] ELSE Min(accLow[p], winLow[p])]
      /\ winLow' = [p \in Parts |-> Inf]
@@ -181,6 +188,25 @@ TStore ==
 TNote == /\ E.ev \in {"note", "lookup"}
          /\ UNCHANGED <<viol, cfg, pend, asked, touched, store, winLow, accLow, inFlight, flightMark, reqs, closing, joined, finalsOk, st>>
 
+\* ---- shutdown family: the calls were awaited by a quiescence-aware watchdog
+Rest == <<cfg, pend, asked, touched, store, winLow, accLow, inFlight, flightMark, reqs, closing, joined, finalsOk>>
+TSdRet ==
+  /\ E.ev = "sd_ret"
+  /\ viol' = viol \cup When(E.hang, "close_hang") \cup When(E.panic # "", "close_panic")
+  /\ st' = BumpBy(BumpBy(BumpBy(st, "sd_returns", IF E.hang THEN 0 ELSE 1), "sd_hangs", IF E.hang THEN 1 ELSE 0),
+                  "sd_panics", IF E.panic # "" THEN 1 ELSE 0)
+  /\ UNCHANGED Rest
+TPanic ==
+  /\ E.ev = "panic"
+  /\ viol' = viol \cup V("close_panic")
+  /\ st' = Bump("sd_panics")
+  /\ UNCHANGED Rest
+TErrorsClosed ==
+  /\ E.ev = "errors_closed"
+  /\ viol' = viol \cup When(~E.closed, "errors_closed_after_close")
+  /\ st' = BumpBy(st, "sd_errors_channels_closed", IF E.closed THEN 1 ELSE 0)
+  /\ UNCHANGED Rest
+
 TEnd == /\ E.ev = "end"
         /\ PrintT(<<"VIOL", ToJson(viol)>>)
         /\ PrintT(<<"STATS", ToJson(st)>>)
@@ -189,7 +215,7 @@ TEnd == /\ E.ev = "end"
 Next == /\ l <= Len(Trace)
         /\ l' = l + 1
         /\ (TReset \/ TMark \/ TResetOff \/ TNext \/ TCommitCall \/ TCommitRet \/ TCreq
-            \/ TCloseCall \/ TCloseRet \/ TStore \/ TNote \/ TEnd)
+            \/ TCloseCall \/ TCloseRet \/ TStore \/ TNote \/ TSdRet \/ TPanic \/ TErrorsClosed \/ TEnd)
 Spec == Init /\ [][Next]_vars
 Accepted == TLCGet("stats").diameter - 1 = Len(Trace)
 =============================================================================
